@@ -189,6 +189,7 @@ def c01_rf18(run):
     rf_flow.rf33(run)
     rf_flow.rf32(run)
     rf_flow.rf36(run)
+    rf_flow.rf43(run)
 
 
 def c04_rf18(run):
@@ -262,6 +263,7 @@ def c03_rf11(run):
     rf_iface.rf31a(run)
     rf_iface.rf31b(run)
     rf_flow.rf33(run)
+    rf_iface.rf42(run)
 
 
 def c06_rf11(run):
